@@ -181,8 +181,79 @@ def w_trend(w, cfg):
         w.discharge(f"{entry}.{ob.kind}@{ob.where}", assume, ob.claim, guard=ob.guard, lemmas=lem, concretize=conc)
 
 
+class _DA:
+    """DataArray contract for PixelAlgorithms.mktrend: only .attrs is read by the accessor."""
+
+    def __init__(self, attrs):
+        self.attrs = attrs
+
+    def pysym_getattr(self, it, st, attr):
+        if attr == "attrs":
+            return self.attrs
+        raise Unsupported(f"DataArray.{attr}")
+
+
+class _Out:
+    def __init__(self, name=None):
+        self.name = name
+        self.attrs = {}
+
+    def pysym_getattr(self, it, st, attr):
+        from pysym.lib import native
+        if attr == "to_dataset":
+            return native(lambda it_, st_, name=None, **kw: _Out(name))
+        if attr == "attrs":
+            return self.attrs
+        if attr in ("tau", "pvalue", "slope", "trend"):
+            return self.__dict__.setdefault("_" + attr, _Out(attr))
+        raise Unsupported(f"result.{attr}")
+
+
+def w_accessor(w, cfg):
+    """mktrend dispatch: a declared nodata value (ANY value, 0 included) selects the nodata-aware kernel and is handed to it; without a
+    declared value the plain kernel runs on the array alone; the core dimension is time; the trend flag's nodata is -2."""
+    from pysym.interp import Instance
+    from pysym.lib import native
+    nd = cfg["nodata"]
+    it = C.new_interp(policy="exact")
+    cls = it.get_function("hdc.algo.accessors", "PixelAlgorithms")
+    cls.link_bases(it)
+    inst = Instance(cls)
+    da = _DA({} if nd is None else {"nodata": nd})
+    inst.fields["_obj"] = da
+    calls = []
+
+    @native
+    def apply_ufunc(it_, st_, func, *args, **kw):
+        calls.append((func, args, kw))
+        return tuple(_Out() for _ in range(4))
+    it.lib_overrides["xarray.apply_ufunc"] = apply_ufunc
+    it.lib_overrides["xarray.merge"] = native(lambda it_, st_, objs, **kw: _Out("merged"))
+    it.lib_overrides["warnings.warn"] = native(lambda it_, st_, *a, **k: None)
+    st = State()
+    res = it.call_function(st, cls.methods["mktrend"], [inst])
+    w.res.encoded.update(it.encoded)
+
+    def conc(m):
+        return {"kind": "accessor", "data": None, "nodata": nd}
+    ok = len(calls) == 1
+    if ok:
+        func, args, kw = calls[0]
+        fname = getattr(func, "name", None) or getattr(getattr(func, "node", None), "name", None)
+        icd = [list(x) for x in (kw.get("input_core_dims") or [])]
+        if nd is None:
+            ok = fname == "_mann_kendall_trend_gu" and len(args) == 1 and args[0] is da and icd == [["time"]]
+        else:
+            ok = fname == "_mann_kendall_trend_gu_nd" and len(args) == 2 and args[0] is da and args[1] == nd and icd == [["time"], []]
+        ok = ok and [list(x) for x in kw.get("output_core_dims", [])] == [[], [], [], []] \
+            and list(kw.get("output_dtypes", [])) == ["float32", "float32", "float32", "int8"]
+    w.discharge(f"mktrend.dispatch[nodata={nd}]", [], z3.BoolVal(bool(ok)), concretize=conc)
+    tr = res.pysym_getattr(it, st, "trend") if isinstance(res, _Out) else None
+    w.discharge(f"mktrend.trend_flag_nodata_is_minus_2[nodata={nd}]", [], z3.BoolVal(tr is not None and tr.attrs.get("nodata") == -2), concretize=conc)
+
+
 def worker(w, cfg):
-    {"parts": w_parts, "trend": w_trend}[cfg["kind"]](w, cfg)
+    {"parts": w_parts, "trend": w_trend, "accessor": w_accessor}[cfg["kind"]](w, cfg)
 
 
 def configs(tier):
@@ -197,6 +268,8 @@ def configs(tier):
         cf.append({"kind": "trend", "n": n, "entry": "gu"})
         cf.append({"kind": "trend", "n": n, "entry": "gu_nd", "some_valid": True})
         cf.append({"kind": "trend", "n": n, "entry": "gu_nd", "some_valid": False})
+    for nd in (None, 0, -9999, 1, 255, -1):
+        cf.append({"kind": "accessor", "nodata": nd})
     return cf
 
 
@@ -217,8 +290,18 @@ def validate(chk, seed):
         chk.validate("mann_kendall_trend_1d", mine, real, tol=1e-9)
 
 
+_BOUNDARY = {}
+
+
 def replay_candidate(chk, c):
     r = chk.replayer.call("c10_mk", **c["input"])
+    if not r["violates"] and any(k in c.get("obligation", "") for k in ("trend_flag", "p_value")):
+        # the model's Z is a real number between the exact critical value and what the code compares with; integer series that
+        # realise such a Z are rare - the replayer runs its ladder of series closest to the 5 % boundary (both sides) once
+        if "r" not in _BOUNDARY:
+            _BOUNDARY["r"] = chk.replayer.call("c10_mk", kind="boundary", data=None)
+        if _BOUNDARY["r"]["violates"]:
+            r = dict(_BOUNDARY["r"], via="boundary ladder shaped after the candidate")
     return bool(r["violates"]), r
 
 
